@@ -30,6 +30,19 @@ def _prefixes():
     return (os.path.join(REPO, 'hotxlfp') + os.sep, pl)
 
 
+_WITH_CACHE = {}
+
+
+def _is_with_line(frame):
+    key = (frame.f_code.co_filename, frame.f_lineno)
+    r = _WITH_CACHE.get(key)
+    if r is None:
+        import linecache
+        line = linecache.getline(key[0], key[1] or 0).lstrip()
+        r = _WITH_CACHE[key] = line.startswith(('with ', 'with(', 'async with '))
+    return r
+
+
 class StepClock(object):
     __slots__ = ('steps', 'limit', 'intr_at', 'intr_exc', 'next_event', 'hook', 'hook_at',
                  'reach', 'prefixes', '_glob', 'last_frame', 'fired', 'extra_prefixes', 'opcode', 'ref_calls', 'steplog')
@@ -63,7 +76,12 @@ class StepClock(object):
 
     def _event(self, frame):
         s = self.steps
-        if self.intr_at is not None and s >= self.intr_at:
+        if self.intr_at is not None and s >= self.intr_at and _is_with_line(frame):
+            # the implicit __exit__ step of a `with` block shows up as a line event, but no real signal or
+            # asynchronous exception can land between the block and its __exit__ call: deliver one step later
+            self.intr_at = s + 1
+            self._recompute()
+        elif self.intr_at is not None and s >= self.intr_at:
             exc = self.intr_exc
             self.intr_at = None
             self.intr_exc = None
